@@ -47,7 +47,8 @@ def showOut : Out → String
   | .corrupt => "corrupt" | .outOfFuel => "out-of-fuel" | .gone => "gone"
 
 def answer (o : Out) (s : Life.St) : String :=
-  (if s.panicked then "panic" else showOut o) ++ " b=" ++ showBps s ++ " " ++ showLog s.log
+  if s.staleGen then (if s.panicked then "panic" else showOut o) ++ " b=* p=* x=*"
+  else (if s.panicked then "panic" else showOut o) ++ " b=" ++ showBps s ++ " " ++ showLog s.log
 
 def decPair? (f g : String → Option Nat) (t : String) : Option (Nat × Nat) :=
   match t.splitOn ":" with
